@@ -2,21 +2,24 @@
    Property theorems only.  MODE / WHITE / BLACK are regenerated from every BitParser.add call of
    pdfminer/ccitt.py (Gen/CCITTTables.v); Spec/T6Tables.v holds the ITU-T T.4 / T.6 tables typed
    from the Recommendations; Model/CCITT.v mirrors BitParser and CCITTG4Parser.
-   PROVED, for encodings without EncodedByteAlign (either polarity): the whole chain.
+   PROVED: the whole chain from bytes to rows, for every bitmap, every admissible encoding, either polarity, with and
+   without EncodedByteAlign.
    (a) code layer: tables = Recommendations, prefix-freeness, trie walk, run lengths as sums of make-up and
    terminating codes, bit packing; (b) mode layer (C19_row, C19_page): for every bitmap of any width and height and
    EVERY admissible choice of pass / vertical / horizontal elements (T.6 2.2: b1, b2 on the reference row, a1, a2 on
    the coding row, stated declaratively and independently of the decoder's search loops), executing the decoder's
-   reaction to each element rebuilds exactly the rows, in order; (c) glue (C19_element_bits, C19_bytes): the bit
-   string of an element - mode code, and for horizontal elements ANY make-up/terminating decomposition of the two
-   run lengths - drives the bit-level parser to that reaction, so the bytes of any such encoding, padded with up to
-   seven zero bits, make ccittfaxdecode return the rows packed by output_line; (d) C19_every_bitmap_round_trips:
-   every bitmap has such an encoding.
-   NOT PROVED (correspondence and exhaustive small bitmaps only): EncodedByteAlign = true (the ByteSkip path),
-   the EOFB marker after the last row, and the Flate-style wrapper PDFStream applies around the decoder. *)
+   reaction to each element rebuilds exactly the rows, in order; (c) glue (C19_element_bits, C19_bytes,
+   C19_bytes_eofb): the bit string of an element - mode code, and for horizontal elements ANY make-up/terminating
+   decomposition of the two run lengths - drives the bit-level parser to that reaction, so the bytes of any such
+   encoding, padded with up to seven zero bits or followed by EOFB and anything, make ccittfaxdecode return the rows
+   packed by output_line; (d) C19_bytes_aligned: with EncodedByteAlign every row starts at a byte boundary and the
+   up to seven bits after a row's last element are skipped whatever they are (needs: no proper prefix of a row's bits
+   stops the parser); (e) C19_every_bitmap_round_trips(_aligned): every bitmap has such an encoding.
+   NOT MODELLED: uncompressed mode (an extension T.6 leaves optional) and the wrapper PDFStream applies around the
+   decoder (parameters /K, /Columns, /BlackIs1 are read by code covered by C03's chain correspondence). *)
 From Coq Require Import ZArith List Bool.
 From PdfV Require Import Base.CV Gen.CCITTTables Spec.T6Tables Model.CCITT Model.CCITTRun Proofs.CCITTProofs
-  Proofs.CCITTModeProofs Proofs.CCITTGlueProofs Proofs.CCITTEncode.
+  Proofs.CCITTModeProofs Proofs.CCITTGlueProofs Proofs.CCITTEncode Proofs.CCITTAlignProofs.
 Import ListNotations.
 Open Scope Z_scope.
 
@@ -99,6 +102,23 @@ Theorem C19_bytes : forall w rows ops bits data k reversed, 0 < w ->
   ccittfaxdecode data w false reversed = DOk (flat_map (output_line reversed) rows).
 Proof. exact g4_bytes_decode. Qed.
 
+Theorem C19_bytes_eofb : forall w rows ops bits data eofb junk reversed, 0 < w ->
+  page_coding (white_line w) rows ops -> ops_bits (g4_init w false) ops bits ->
+  In (ME, eofb) MODE -> flat_map bits_of_byte data = bits ++ eofb ++ junk ->
+  ccittfaxdecode data w false reversed = DOk (flat_map (output_line reversed) rows).
+Proof. exact g4_bytes_decode_eofb. Qed.
+
+(* EncodedByteAlign: rows as whole bytes, arbitrary fill bits *)
+Theorem C19_bytes_aligned : forall w rows data reversed, 0 < w ->
+  page_bytes (g4_init w true) (white_line w) rows data ->
+  ccittfaxdecode data w true reversed = DOk (flat_map (output_line reversed) rows).
+Proof. exact g4_bytes_decode_aligned. Qed.
+
+Theorem C19_every_bitmap_round_trips_aligned : forall w rows reversed, 0 < w ->
+  Forall (fun r => length r = Z.to_nat w /\ bin r) rows ->
+  exists data, ccittfaxdecode data w true reversed = DOk (flat_map (output_line reversed) rows).
+Proof. exact every_bitmap_round_trips_aligned. Qed.
+
 Theorem C19_every_bitmap_round_trips : forall w rows reversed, 0 < w ->
   Forall (fun r => length r = Z.to_nat w /\ bin r) rows ->
   exists data, ccittfaxdecode data w false reversed = DOk (flat_map (output_line reversed) rows).
@@ -133,3 +153,6 @@ Print Assumptions C19_modes_nonvacuous.
 Print Assumptions C19_element_bits.
 Print Assumptions C19_bytes.
 Print Assumptions C19_every_bitmap_round_trips.
+Print Assumptions C19_bytes_eofb.
+Print Assumptions C19_bytes_aligned.
+Print Assumptions C19_every_bitmap_round_trips_aligned.
